@@ -76,3 +76,13 @@ package processor
 //@   pure
 //@   safe
 //@ end
+
+// ---- fillnull without a field list (C06): the first pass accumulates the
+// column names of EVERY batch, so that the second pass fills the same
+// columns whatever the batching was.
+//@ func (*fillnullProcessor).Process
+//@   props C06
+//@   requires p != nil && p.options != nil
+//@   ensures [first-pass-accumulates-columns] implies(iqr != nil && result1 == nil && len(old(p.options.FieldList)) == 0 && !old(p.secondPass), forallstr(c, implies(haskey(columns, c), haskey(p.knownColumns, c))))
+//@   ensures [first-pass-keeps-earlier-columns] implies(iqr != nil && result1 == nil && len(old(p.options.FieldList)) == 0 && !old(p.secondPass) && old(p.knownColumns) != nil, p.knownColumns == old(p.knownColumns) && forallstr(c, implies(old(haskey(p.knownColumns, c)), haskey(p.knownColumns, c))))
+//@ end
